@@ -165,3 +165,6 @@ Definition determine_version_code : list dstmt :=
 (* channel/channel.go Channel.GetTimeout *)
 Definition get_timeout_code : list dstmt :=
   [DIf (DEq "t" "-1") [DReturn "c.TimeoutOps"] []; DIf (DEq "t" "0") [DReturn "util.MaxTimeout * time.Second"] []; DReturn "t"].
+(* driver/generic/sendwithcallbacks.go Callback.check *)
+Definition callback_check_code : list dstmt :=
+  [DIf (DAtom "c.Insensitive") [DAssign "b" "bytes.ToLower(b)"] []; DIf (DAnd (DAnd (DNot (DEq "c.Contains" """""")) (DAtom "bytes.Contains(b, c.contains())")) (DNot (DAnd (DNot (DEq "c.NotContains" """""")) (DAtom "bytes.Contains(b, c.notContains())")))) [DReturn "true"] []; DIf (DAnd (DAnd (DNot (DEq "c.ContainsRe" "nil")) (DAtom "c.ContainsRe.Match(b)")) (DNot (DAnd (DNot (DEq "c.NotContains" """""")) (DAtom "bytes.Contains(b, c.notContains())")))) [DReturn "true"] []; DReturn "false"].
